@@ -272,6 +272,10 @@ void run_case(Choices& c, Report& r)
               R.accepted.push_back(ok ? 1 : 0);
               if (ok) last_accepted_plus1 = seq + 1;
               ++seq;
+              // a registry look-up from a thread that takes no registry lock of its own around it: races with the other
+              // threads' logger cycles and with the backend erasing removed loggers
+              if ((seq & 15u) == 0 && RFrontend::get_logger("rt") != lg && R.error.empty())
+                R.error = "get_logger(\"rt\") does not return the long-lived logger";
             }
           }
           else if (s.kind == 4)
@@ -290,7 +294,14 @@ void run_case(Choices& c, Report& r)
               if (ok) last_accepted_plus1 = seq + 1;
               ++seq;
             }
+            // registry look-ups race with other threads' create/remove and with the backend's clean-up of removed loggers
+            if (RFrontend::get_logger(name) != tmp && R.error.empty())
+              R.error = "get_logger(\"" + name + "\") does not return the logger create_or_get_logger() just returned";
+            if (RFrontend::get_logger("rt") != lg && R.error.empty()) R.error = "get_logger(\"rt\") does not return the long-lived logger";
             RFrontend::remove_logger(tmp);
+            if (RFrontend::get_logger(name) != nullptr && R.error.empty())
+              R.error = "get_logger(\"" + name + "\") still returns the logger after remove_logger() returned";
+            if (RFrontend::get_number_of_loggers() < 1 && R.error.empty()) R.error = "get_number_of_loggers() == 0 while logger \"rt\" is alive";
           }
           else if (s.kind == 3)
           {
